@@ -378,7 +378,8 @@ theorem b2mPrepare_gen (ext : Nat → Nat) (mb : Mgr) (h : ReorderInv ext mb) (d
     (hd : DvarsFull mb.tbl dvars) {E : Err → Prop} {P : Mgr → Prop}
     (S : SwapOK E P (ReorderRel ext))
     (hP : ∀ m, P m → ReorderInv ext m ∧ NoGarbage m)
-    (hP1 : ∀ m1, ReorderInv ext m1 → NoGarbage m1 → m1.sched = mb.sched → P m1) :
+    (hP1 : ∀ m1, collectGarbage none mb = (.ok (), m1) → ReorderInv ext m1 → NoGarbage m1 →
+      m1.sched = mb.sched → P m1) :
     OkOr E (fun p m2 => PrepOK ext dvars mb p m2 ∧ NoGarbage m2 ∧ RmOK dvars m2.tbl p.rm ∧ P m2)
       (b2mPrepare dvars mb) := by
   have hdo := hd.toDvarsOK
@@ -391,7 +392,7 @@ theorem b2mPrepare_gen (ext : Nat → Nat) (mb : Mgr) (h : ReorderInv ext mb) (d
   rw [hgc]
   simp only
   obtain ⟨hI1, hng1, hreq, hnv1, hv1, hs1, hheld1⟩ := prep_gc ext mb h dvars order sorted hO m1 hG
-  have hsort := sortToOrder_exact S (b2mOrderDict order) m1 (hP1 m1 hI1 hng1 hs1) hreq
+  have hsort := sortToOrder_exact S (b2mOrderDict order) m1 (hP1 m1 hgc hI1 hng1 hs1) hreq
   have hre : reorder (some (b2mOrderDict order)) m1 = sortToOrder (b2mOrderDict order) m1 := rfl
   rw [hre]
   cases hres : sortToOrder (b2mOrderDict order) m1 with
